@@ -353,7 +353,7 @@ fn gen_srv(m: &Menus, s: &mut Sink) {
 fn gen_naptr(m: &Menus, s: &mut Sink) {
     let (us, ns) = (m.u16s(6), m.names(6));
     let mut cm = m.charstrs(6);
-    let with_long = m.tier == Tier::Thorough;
+    let with_long = m.tier != Tier::Compact;
     if with_long {
         cm.push(fill_alpha(256)); // expected CharStrError
     }
